@@ -87,3 +87,87 @@ M("c01-dup-check-skipped-for-small", "C01", "R01.7", CONS,
 M("c01-notsig-default-false", "C01", "R01.7", SIG,
   "        that may actually be used to verify public keys should return False here.\"\"\"\n        return True",
   "        that may actually be used to verify public keys should return False here.\"\"\"\n        return False")
+
+# ----------------------------------------------------------------------------------------------- C02
+M("c02-fees-head-state", "C02", "R02.1", CONS,
+  "    unspent_transaction_outs = coinstate.unspent_transaction_outs_by_hash[block.header.summary.previous_block_hash]\n    fees = get_block_fees(",
+  "    unspent_transaction_outs = coinstate.unspent_transaction_outs_by_hash[coinstate.current_chain_hash]\n    fees = get_block_fees(")
+M("c02-fees-minus-subsidy", "C02", "R02.1", CONS, "> fees + subsidy:", "> fees - subsidy:")
+M("c02-reward-plus-one", "C02", "R02.1", CONS, "> fees + subsidy:", "> fees + subsidy + 1:")
+M("c02-fee-drop-outputs", "C02", "R02.2", CONS, "    return total_input_value - total_output_value", "    return total_input_value")
+M("c02-drop-overspend", "C02", "R02.3", CONS,
+  "    if sum(output.value for output in transaction.outputs) > total_input_value:\n        raise ValidateTransactionError('Transaction overspending')\n", "")
+M("c02-overspend-plus-one", "C02", "R02.3", CONS,
+  "    if sum(output.value for output in transaction.outputs) > total_input_value:",
+  "    if sum(output.value for output in transaction.outputs) > total_input_value + 1:")
+M("c02-zero-allowed", "C02", "R02.4", CONS, "    if not (0 < value <= MAX_SASHIMI):", "    if not (0 <= value <= MAX_SASHIMI):")
+M("c02-drop-total-range", "C02", "R02.4", CONS, "    validate_sashimi_range(total_transaction_output_value)\n", "")
+M("c02-coinbase-ge1", "C02", "R02.5", CONS, "    if not len(transaction.inputs) == 1:", "    if not len(transaction.inputs) >= 1:")
+M("c02-drop-height-guard", "C02", "R02.6", CONS,
+  "    if block.height != calculated_current_height:\n        raise ValidateBlockHeaderError(\"Block's reported height incorrect.\")\n", "")
+M("c02-float-subsidy", "C02", "R02.7", CONS, "    return INITIAL_SUBSIDY // (2 ** halvings)  # type: ignore", "    return int(INITIAL_SUBSIDY / (2 ** halvings))  # type: ignore")
+M("c02-fees-all-transactions", "C02", "R02.1", CONS, "    fees = get_block_fees(block.transactions[1:], unspent_transaction_outs)", "    fees = get_block_fees(block.transactions, unspent_transaction_outs)")
+M("c02-skip-some-outputs", "C02", "R02.4", CONS,
+  "    for output in transaction.outputs:\n        validate_sashimi_range(output.value)",
+  "    for output in transaction.outputs[:-1]:\n        validate_sashimi_range(output.value)")
+M("c02-reward-only-first-output", "C02", "R02.1", CONS,
+  "    if sum(output.value for output in transaction.outputs) > fees + subsidy:",
+  "    if transaction.outputs[0].value > fees + subsidy:")
+M("c02-subsidy-parent-height", "C02", "R02.1", CONS, "    subsidy = get_block_subsidy(block.height)", "    subsidy = get_block_subsidy(previous_height)")
+M("c02-coinbase-instate-skipped-small", "C02", "R02.1", CONS,
+  "    validate_coinbase_transaction_in_coinstate(coinbase_transaction, block, coinstate)",
+  "    if len(block.transactions) > 1:\n        validate_coinbase_transaction_in_coinstate(coinbase_transaction, block, coinstate)")
+M("c02-thinair-any-index", "C02", "R02.5", DT, "        return (self.hash == b'\\x00' * 32) and (self.index == 0)", "        return (self.hash == b'\\x00' * 32)")
+
+# ----------------------------------------------------------------------------------------------- C16
+M("c16-five-four", "C16", "R16", PAR, "FIVE = (10 // 2)", "FIVE = (10 // 2) - 1")
+M("c16-interval-plus-one", "C16", "R16", PAR, "SUBSIDY_HALVING_INTERVAL = 210_000 * FIVE", "SUBSIDY_HALVING_INTERVAL = 210_000 * FIVE + 1")
+M("c16-halvings-gt", "C16", "R16", CONS, "    return INITIAL_SUBSIDY // (2 ** halvings)  # type: ignore", "    return INITIAL_SUBSIDY >> (halvings + 1)  # type: ignore")
+M("c16-special-height", "C16", "R16.4", CONS, "    halvings = height // SUBSIDY_HALVING_INTERVAL\n",
+  "    if height == 123456:\n        return 2 * INITIAL_SUBSIDY\n    halvings = height // SUBSIDY_HALVING_INTERVAL\n")
+M("c16-max-off-by-one", "C16", "R16", PAR, "MAX_SASHIMI = 2_099_999_986_350_000", "MAX_SASHIMI = 2_099_999_986_350_001")
+M("c16-doc-edit", "C16", "R16.2", "docs/params.md", "* 1,050,000 block halving interval", "* 1,050,001 block halving interval")
+M("c16-early-zero", "C16", "R16.4", CONS, "    if halvings >= 64:\n        return 0", "    if halvings >= 20:\n        return 0")
+M("c16-untested-range", "C16", "R16.4", CONS, "    if halvings >= 64:\n        return 0",
+  "    if halvings >= 64:\n        return 0\n\n    if height > 5_000_000:\n        return INITIAL_SUBSIDY // (2 ** (halvings - 1))")
+M("c16-modulo-use", "C16", ["R16.4", "R16"], CONS, "    halvings = height // SUBSIDY_HALVING_INTERVAL\n",
+  "    halvings = height // SUBSIDY_HALVING_INTERVAL\n    if height % 1000003 == 7:\n        return INITIAL_SUBSIDY\n")
+
+# ----------------------------------------------------------------------------------------------- C05
+M("c05-pow-gt", "C05", "R05.1", CONS, "    if hash >= target:", "    if hash > target:")
+M("c05-ts-lt", "C05", "R05.2", CONS, "    if block_summary.timestamp <= previous_block.timestamp:", "    if block_summary.timestamp < previous_block.timestamp:")
+M("c05-future-7200", "C05", "R05.2", PAR, "MAX_FUTURE_BLOCK_TIME = 30", "MAX_FUTURE_BLOCK_TIME = 7200")
+M("c05-target-eq", "C05", "R05.4", CONS, "    if block_summary.target != calculated_target:", "    if block_summary.target == calculated_target:")
+M("c05-target-dropped", "C05", "R05.4", CONS,
+  "    if block_summary.target != calculated_target:\n        raise ValidateBlockHeaderError(\"Block's reported target incorrect\")\n", "")
+M("c05-retarget-mod1", "C05", "R05.4", CONS, "    if height % BLOCKS_BETWEEN_TARGET_READJUSTMENT == 0:", "    if height % BLOCKS_BETWEEN_TARGET_READJUSTMENT == 1:")
+M("c05-interval-off", "C05", "R05.4", CONS, "        interval_start_height = height - BLOCKS_BETWEEN_TARGET_READJUSTMENT\n", "        interval_start_height = height - BLOCKS_BETWEEN_TARGET_READJUSTMENT + 1\n")
+M("c05-interval-head-chain", "C05", "R05.4", CONS,
+  "        interval_start_block = coinstate.block_by_height_by_hash[previous_block.hash()][interval_start_height]",
+  "        interval_start_block = coinstate.by_height_at_head()[interval_start_height]")
+M("c05-div-first", "C05", "R05.5", CONS,
+  "    result = (i_previous_target * actual_time_passed) // DESIRED_TARGET_READJUSTMENT_TIMESPAN",
+  "    result = (i_previous_target // DESIRED_TARGET_READJUSTMENT_TIMESPAN) * actual_time_passed")
+M("c05-signed", "C05", "R05.5", CONS, "    i_previous_target = int.from_bytes(previous_target, byteorder='big', signed=False)",
+  "    i_previous_target = int.from_bytes(previous_target, byteorder='big', signed=True)")
+M("c05-no-clamp", "C05", "R05.5", CONS,
+  "    if result > pow(2, 32 * 8) - 1:\n        result = pow(2, 32 * 8) - 1  # TBH", "    if False:\n        result = pow(2, 32 * 8) - 1  # TBH")
+M("c05-little-endian", "C05", "R05.5", CONS, "    return result.to_bytes(32, byteorder='big', signed=False)", "    return result.to_bytes(32, byteorder='little', signed=False)")
+M("c05-drop-cb-height", "C05", "R05.6", CONS,
+  "    if coinbase_transaction.inputs[0].signature.height != block.height:  # type: ignore\n        raise ValidateBlockError(\"block.height != coinbase.height\")\n", "")
+M("c05-evidence-summary-only", "C05", "R05.7", CONS,
+  "    if block.header.pow_evidence != reconstructed_evidence:", "    if block.header.pow_evidence.summary_hash != reconstructed_evidence.summary_hash:")
+M("c05-select-height-4", "C05", "R05.7", POW, "    base = int.from_bytes(input_hash[:8], byteorder='big', signed=False)\n    return base % current_height",
+  "    base = int.from_bytes(input_hash[:4], byteorder='big', signed=False)\n    return base % current_height")
+M("c05-miner-prev-target", "C05", "R05.8", CONS, "        target=calc_target(coinstate, height, current_timestamp, previous_block),", "        target=previous_block.target,")
+M("c05-evidence-tx-slice", "C05", "R05.7", CONS, "    serialized_transactions = serialize_list(transactions)", "    serialized_transactions = serialize_list(transactions[:1])")
+M("c05-sample-head-chain", "C05", "R05.7", CONS, "            return coinstate.block_by_height_by_hash[summary.previous_block_hash][h]",
+  "            return coinstate.by_height_at_head()[h]")
+M("c05-retarget-span", "C05", "R05.5", PAR, "DESIRED_TARGET_READJUSTMENT_TIMESPAN = BLOCKS_BETWEEN_TARGET_READJUSTMENT * DESIRED_BLOCK_TIMESPAN",
+  "DESIRED_TARGET_READJUSTMENT_TIMESPAN = BLOCKS_BETWEEN_TARGET_READJUSTMENT * DESIRED_BLOCK_TIMESPAN + 60")
+M("c05-header-check-skipped", "C05", "R05.1", CONS, "    validate_block_header_by_itself(block.header, current_timestamp)\n\n    if len(block.transactions) == 0:",
+  "    if len(block.transactions) == 0:")
+M("c05-summary-instate-skipped", "C05", ["R05.2", "R05.3", "R05.4"], CONS, "    validate_block_summary_in_coinstate(block.header.summary, coinstate)\n", "")
+M("c05-scrypt-salt", "C05", "R05.7", CONS, "    return scrypt(summary.serialize(), current_height.to_bytes(8, byteorder='big'))", "    return scrypt(summary.serialize(), b'')")
+M("c05-miner-height", "C05", "R05.8", CONS, "    previous_block = coinstate.head()\n    height = previous_block.height + 1\n    return BlockSummary(",
+  "    previous_block = coinstate.head()\n    height = previous_block.height\n    return BlockSummary(")
